@@ -61,6 +61,8 @@ def mle_case(draw, n_max=6, with_container=False, with_competitor=False, with_ma
     if with_container:
         case["container"] = draw(R.containers(R.MATRIX_CONTAINERS))
         case["eq"] = draw(st.sampled_from([True, True, False]))
+        # integer counts may also arrive in a narrow or unsigned element type (applied when every value fits)
+        case["cast"] = draw(st.sampled_from([None, None, "uint8", "uint16", "uint32", "uint64", "int8", "int16", "float32"]))
     if with_competitor:
         case["G"] = draw(st.lists(st.floats(-1.0, 1.0, allow_nan=False, width=32), min_size=n * n, max_size=n * n))
         case["eps"] = draw(st.sampled_from([1e-3, 1e-2, 0.3, 2.0]))
@@ -146,6 +148,12 @@ def run_terminates_builder(case):
     """Sentence 1 via the public entry point: builders.mle returns a model (or warns) for dense and sparse,
     integer and real input - never an internal AssertionError / TypeError / ValueError."""
     A = R.case_matrix(case["mat"])
+    cast = case.get("cast")
+    if cast and A.dtype.kind in "iu" and (cast.startswith("float") and A.max() < 2 ** 20 or
+                                          not cast.startswith("float") and A.max() <= np.iinfo(cast).max):
+        A = A.astype(cast)
+    else:
+        cast = None
     B = A.astype(float)
     # reference run of the wrapped implementation; it doubles as the budget guard
     try:
@@ -176,7 +184,7 @@ def run_terminates_builder(case):
     require(Tpy is not None, "_prinz_mle_py failed on the dense counts although builders.mle returned")
     require(np.max(np.abs(T - Tpy)) <= 1e-12, "builders.mle(container) differs from the estimator on the dense counts",
             got=T.tolist(), want=Tpy.tolist())
-    return info(case, ["eq=%s" % case["eq"], "warned=%s" % warned])
+    return info(case, ["eq=%s" % case["eq"], "warned=%s" % warned, "element_type=%s" % (cast or str(A.dtype))])
 
 
 def run_terminates_impls(case):
